@@ -44,7 +44,9 @@ type Node struct {
 type Graph struct {
 	Top  Node         // dict with Root and Info
 	Objs map[int]Node // indirect objects by number
-	norm *Graph
+	// Compressed: objects the reader took out of an object stream (coverage information only)
+	Compressed map[int]bool
+	norm       *Graph
 }
 
 // Keys that the writer legitimately changes and that are therefore not compared.
@@ -140,7 +142,7 @@ func (d *pdfcpuDoc) Graph() *Graph {
 	if d.g != nil {
 		return d.g
 	}
-	g := &Graph{Objs: map[int]Node{}}
+	g := &Graph{Objs: map[int]Node{}, Compressed: map[int]bool{}}
 	var conv func(o types.Object, skip map[string]bool) Node
 	var todo []int
 	convDict := func(dd types.Dict, skip map[string]bool, kind byte, val string) Node {
@@ -216,6 +218,21 @@ func (d *pdfcpuDoc) Graph() *Graph {
 		if !found || e.Free || e.Object == nil {
 			g.Objs[nr] = Node{Kind: 'n'}
 			continue
+		}
+		if _, lazy := e.Object.(types.LazyObjectStreamObject); lazy {
+			// a member of an object stream nobody has looked at so far (e.g. the target of a private entry):
+			// have the reader decode it (Dereference stores the decoded object in the entry)
+			gen := 0
+			if e.Generation != nil {
+				gen = *e.Generation
+			}
+			if _, err := d.ctx.Dereference(*types.NewIndirectRef(nr, gen)); err != nil {
+				g.Objs[nr] = Node{Kind: 'v', Val: "!undecodable object stream member: " + err.Error()}
+				continue
+			}
+		}
+		if e.Compressed || e.ObjectStream != nil { // the reader clears Compressed once the member is extracted
+			g.Compressed[nr] = true
 		}
 		var skip map[string]bool
 		if nr == infoNr {
